@@ -30,7 +30,11 @@ Progress(r) == \A k \in 2..Len(r.frames) :
    \/ (r.leaf = 1 /\ k = 2 /\ r.frames[1].sp = r.frames[2].sp)
 ScanOk(r) == \A k \in 2..Len(r.frames) : LET f == r.frames[k] IN f.trust = "scan" =>
    /\ ~Lt(f.sp, W4(r.ptr))
-   /\ LET a == Sub(f.sp, W4(r.ptr)) IN InStack(r, a) /\ WordAt(r, a) = f.ip
+   /\ LET a == Sub(f.sp, W4(r.ptr)) IN
+        \* the return address is the word just below the frame's sp, inside the stack memory.  The recorded memory is word-granular: when
+        \* the scan ran on addresses that are not word-aligned (an unaligned context sp) the word's position is still checked, its value is not
+        /\ ~Lt(a, r.base) /\ LET off == Sub(a, r.base) IN IsSmall(off) /\ ToSmall(off) + r.ptr <= r.nbytes
+        /\ (InStack(r, a) => WordAt(r, a) = f.ip)
 Covers(r) == \A k \in 1..Len(r.frames) : LET f == r.frames[k] IN
    /\ (f.mod.has = 1 => (~Lt(f.instr, f.mod.base) /\ Lt(Sub(f.instr, f.mod.base), f.mod.size)))
    /\ (f.fn.has = 1 => (f.mod.has = 1 /\ ~Lt(f.instr, f.fn.base)))
